@@ -18,6 +18,8 @@ import MTVerif.Lemmas.Keys
 import MTVerif.Lemmas.ShrinkPerm
 import MTVerif.Lemmas.ModuleRender
 import MTVerif.Lemmas.LargeUnionPerm
+import MTVerif.Lemmas.FuncDef
+import MTVerif.Lemmas.Enforce
 namespace MT.C14
 open MT
 
@@ -194,6 +196,77 @@ def miHier : Hier where
 /-- non-vacuity: whichever member comes first, the union collapses to P (the old code answered Q for the second order) -/
 example : Ty.beq' (rewrite miHier (.largeUnion 2) (.union [.cls 52, .cls 53, .cls 54])) (.cls 50) = true ∧
     Ty.beq' (rewrite miHier (.largeUnion 2) (.union [.cls 53, .cls 52, .cls 54])) (.cls 50) = true := by decide
+
+
+/-! ### the traces of one function (`shrink_traced_types`, Model/FuncDef) -/
+
+section
+open MT.FuncDef
+
+/-- two results of the per-position merge agree: both absent, or both present and `==` -/
+def agree : Option Ty → Option Ty → Prop
+  | none, none => True
+  | some a, some b => Ty.eqv a b = true
+  | _, _ => False
+
+theorem shrinkOpt_setEq (k : Nat) (ts ts' : List Ty) (hw : ∀ t ∈ ts, t.wf = true) (hs : SetEq ts ts') :
+    agree (shrinkOpt k ts) (shrinkOpt k ts') := by
+  cases ts with
+  | nil => rw [SetEq.nil_iff hs]; simp [shrinkOpt, agree]
+  | cons t0 rest =>
+    cases ts' with
+    | nil => exact absurd (SetEq.nil_iff hs.symm) (by simp)
+    | cons u0 rest' =>
+      simp only [shrinkOpt, List.isEmpty_cons, Bool.false_eq_true, if_false, agree]
+      exact shrink_setEq k _ hw _ hs
+
+/-- C14 for a whole function: the traces of a function handed to stub generation in another order, with repetitions, or
+    collected from other batches — two lists with the same members — give, for every parameter name, for the return and for the
+    yield position, the same outcome: no traced type at all, or merged types that are equal as Python compares types. -/
+theorem traced_types_depend_on_the_set (k : Nat) (tr1 tr2 : List CTrace) (hs : SetEq tr1 tr2)
+    (hw : ∀ tr ∈ tr1, (∀ a ∈ tr.args, a.2.wf = true) ∧ (∀ t, tr.ret = some t → t.wf = true) ∧ (∀ t, tr.yld = some t → t.wf = true)) :
+    (∀ name, agree ((shrinkTraced k tr1).1.lookup name) ((shrinkTraced k tr2).1.lookup name)) ∧
+    agree (shrinkTraced k tr1).2.1 (shrinkTraced k tr2).2.1 ∧ agree (shrinkTraced k tr1).2.2 (shrinkTraced k tr2).2.2 := by
+  refine ⟨fun name => ?_, ?_, ?_⟩
+  · have hset : SetEq (typesFor name (allArgs k tr1)) (typesFor name (allArgs k tr2)) := by
+      intro t
+      rw [mem_typesFor_allArgs, mem_typesFor_allArgs]
+      constructor
+      · rintro ⟨tr, htr, rest⟩; exact ⟨tr, (hs tr).mp htr, rest⟩
+      · rintro ⟨tr, htr, rest⟩; exact ⟨tr, (hs tr).mpr htr, rest⟩
+    have hwf : ∀ t ∈ typesFor name (allArgs k tr1), t.wf = true := by
+      intro t ht
+      obtain ⟨tr, htr, t0, ht0, rfl⟩ := (mem_typesFor_allArgs k tr1 name t).mp ht
+      exact enforce_wf k t0 ((hw tr htr).1 _ ht0)
+    rw [lookup_shrinkTraced, lookup_shrinkTraced]
+    have := shrinkOpt_setEq k _ _ hwf hset
+    simpa [shrinkOpt, List.isEmpty_iff] using this
+  · have hset : SetEq (retTypes k tr1) (retTypes k tr2) := by
+      intro t
+      rw [mem_retTypes, mem_retTypes]
+      constructor
+      · rintro ⟨tr, htr, rest⟩; exact ⟨tr, (hs tr).mp htr, rest⟩
+      · rintro ⟨tr, htr, rest⟩; exact ⟨tr, (hs tr).mpr htr, rest⟩
+    apply shrinkOpt_setEq k _ _ _ hset
+    intro t ht
+    obtain ⟨tr, htr, t0, ht0, rfl⟩ := (mem_retTypes k tr1 t).mp ht
+    exact enforce_wf k t0 ((hw tr htr).2.1 t0 ht0)
+  · have hset : SetEq (yldTypes k tr1) (yldTypes k tr2) := by
+      intro t
+      rw [mem_yldTypes, mem_yldTypes]
+      constructor
+      · rintro ⟨tr, htr, rest⟩; exact ⟨tr, (hs tr).mp htr, rest⟩
+      · rintro ⟨tr, htr, rest⟩; exact ⟨tr, (hs tr).mpr htr, rest⟩
+    apply shrinkOpt_setEq k _ _ _ hset
+    intro t ht
+    obtain ⟨tr, htr, t0, ht0, rfl⟩ := (mem_yldTypes k tr1 t).mp ht
+    exact enforce_wf k t0 ((hw tr htr).2.2 t0 ht0)
+
+/-- non-vacuity: two traces of `f(a, b)` / `f(a)` in both orders -/
+example : ((shrinkTraced 0 [⟨[("a", .cls intC), ("b", .cls strC)], some (.cls noneC), none⟩, ⟨[("a", .cls strC)], none, none⟩]).1.lookup "a").any
+      (fun t => Ty.beq' t (.union [.cls intC, .cls strC])) = true := by decide +kernel
+
+end
 
 /-- the Protocol table of the second defect: B = 60, Drawable = 61 (a Protocol that is not runtime-checkable: `issubclass`
     refuses it), Circle(B, Drawable) = 62, S1(B) = 63, S2(B) = 64 -/
